@@ -62,8 +62,11 @@ CFG = {
                     "which may be updated on their own (C11_nested_*); items whose node set changes for other reasons (a reactive child that swaps "
                     "its own nodes) are C04's subject",
                     "one parent element (a list is not moved to a different parent)",
-                    "store mode: rows are written through the keyed write guard or `.set` on the field; a whole-store `store.set(..)` shows F-C16-5 "
-                    "(stale key table) as a wrong row label in the DOM and is left to C16"],
+                    "store mode: rows are written through the keyed write guard or `.set` on the field; a whole-store `store.set(..)` hits C16's "
+                    "known finding F-C16-5 (stale key table): at the DOM level a retained row then shows another row's label and a later "
+                    "shrinking `store.set` panics (`inits 1 1 1 0 1 2; updset 5 1; updroot 1 5 9 8; updroot 9`); not generated here",
+                    "swallowed DOM exceptions (a list rebuilt after `unmount` still holds its old parent: failed insertBefore calls) are part of "
+                    "the observable (`x=<n>`), not of the property"],
     "manifest": {
         "category": "proof",
         "text": "Lean 4 theorems about an executable model of tachys' keyed diff (diff, group_adjacent_moves, unpack_moves, apply_diff verbatim "
